@@ -14,6 +14,8 @@
 #include <xercesc/dom/DOMRangeException.hpp>
 #include <xercesc/dom/DOMDocumentTraversal.hpp>
 #include <xercesc/dom/DOMDocumentRange.hpp>
+#include <xercesc/parsers/XercesDOMParser.hpp>
+#include <xercesc/framework/MemBufInputSource.hpp>
 #include <map>
 #include <unistd.h>
 #include <sys/wait.h>
@@ -257,6 +259,93 @@ static std::string doOp(Hist& h, const std::string& tok) {
     }
 }
 
+// ---- getElementById histories (request lines starting with IDMAP) ---------------------------------------------
+// elements only; at most one attribute "id" per element.  get:<value> prints getElementById's answer and, when it
+// differs, what a linear scan of the document tree for an element carrying that ID says ("!SCAN=").
+struct IdHist {
+    DOMDocument* doc;
+    std::vector<DOMElement*> els;      // index = id; 0 = placeholder for the document
+    std::map<const DOMNode*, int> idOf;
+    std::string nid(const DOMNode* n) {
+        if (!n) return "null";
+        auto it = idOf.find(n);
+        return it == idOf.end() ? std::string("n?") : "n" + std::to_string(it->second);
+    }
+    DOMElement* scan(DOMNode* n, const XMLCh* attrName, const XMLCh* v) {
+        for (DOMNode* c = n->getFirstChild(); c; c = c->getNextSibling()) {
+            if (c->getNodeType() != DOMNode::ELEMENT_NODE) continue;
+            DOMAttr* a = ((DOMElement*)c)->getAttributeNode(attrName);
+            if (a && a->isId() && XMLString::equals(a->getValue(), v)) return (DOMElement*)c;
+            DOMElement* r = scan(c, attrName, v);
+            if (r) return r;
+        }
+        return 0;
+    }
+};
+static std::string doIdOp(IdHist& h, const std::string& tok) {
+    static const XMLCh kId[] = { 'i', 'd', 0 };
+    static const XMLCh kE[] = { 'e', 0 };
+    std::vector<std::string> a = splitColon(tok);
+    auto E = [&](size_t i) -> DOMElement* {
+        if (i >= a.size()) return 0;
+        long k = atol(a[i].c_str());
+        return (k >= 1 && k < (long)h.els.size()) ? h.els[k] : 0;
+    };
+    try {
+        const std::string& op = a[0];
+        if (op == "parse") {
+            // a parsed document whose DTD declares the attribute "id" of <e> as ID: <a><e id="v1"/><e id="v2"/>...</a>;
+            // the parser registers the ID attributes; the elements get the ids 2, 3, ... in document order
+            if (h.els.size() != 2 || a.size() < 2) return "guard";
+            std::string xml = "<!DOCTYPE a [<!ELEMENT a (e*)><!ELEMENT e (e*)><!ATTLIST e id ID #IMPLIED>]><a>";
+            std::string cur;
+            for (char c : a[1] + ",") { if (c == ',') { if (!cur.empty()) xml += "<e id=\"" + cur + "\"/>"; cur.clear(); } else cur += c; }
+            xml += "</a>";
+            XercesDOMParser* parser = new XercesDOMParser();
+            parser->setValidationScheme(XercesDOMParser::Val_Never);
+            MemBufInputSource src((const XMLByte*)xml.data(), xml.size(), "c14-idmap");
+            parser->parse(src);
+            DOMDocument* d = parser->adoptDocument();
+            if (!d || !d->getDocumentElement()) return "parsefail";
+            h.doc = d;
+            h.idOf.clear();
+            h.els[1] = d->getDocumentElement();
+            h.idOf[h.els[1]] = 1;
+            for (DOMNode* c = h.els[1]->getFirstChild(); c; c = c->getNextSibling())
+                if (c->getNodeType() == DOMNode::ELEMENT_NODE) { h.els.push_back((DOMElement*)c); h.idOf[c] = (int)h.els.size() - 1; }
+            return "ok";
+        }
+        if (op == "ne") { DOMElement* e = h.doc->createElement(kE); h.els.push_back(e); h.idOf[e] = (int)h.els.size() - 1; return h.nid(e); }
+        if (op == "app") {
+            DOMElement* p = E(1); DOMElement* n = E(2);
+            if (!p || !n || n == h.els[1]) return "guard";
+            for (DOMNode* x = p; x; x = x->getParentNode()) if (x == n) return "guard";
+            p->appendChild(n); return "ok";
+        }
+        if (op == "rm") {
+            DOMElement* x = E(1);
+            if (!x || x == h.els[1] || !x->getParentNode()) return "guard";
+            x->getParentNode()->removeChild(x); return "ok";
+        }
+        if (op == "sa") { DOMElement* e = E(1); if (!e) return "guard"; std::vector<XMLCh> w = wide(a.size() > 2 ? a[2] : "-"); e->setAttribute(kId, w.data()); return "ok"; }
+        if (op == "sid") { DOMElement* e = E(1); if (!e) return "guard"; e->setIdAttribute(kId, a.size() > 2 && a[2] != "0"); return "ok"; }
+        if (op == "ra") { DOMElement* e = E(1); if (!e) return "guard"; e->removeAttribute(kId); return "ok"; }
+        if (op == "get") {
+            std::vector<XMLCh> w = wide(a.size() > 1 ? a[1] : "-");
+            DOMElement* r = h.doc->getElementById(w.data());
+            DOMElement* s = h.scan(h.doc, kId, w.data());
+            return r == s ? h.nid(r) : h.nid(r) + "!SCAN=" + h.nid(s);
+        }
+        return "badop";
+    } catch (const DOMException& e) {
+        return "err" + std::to_string((int)e.code);
+    } catch (const XMLException& e) {
+        return "xmlexc";
+    } catch (...) {
+        return "exc";
+    }
+}
+
 static std::string gOut;
 static void emit(const std::string& r, int fd) {
     if (fd >= 0) { if (write(fd, r.data(), r.size()) < 0) _exit(3); }
@@ -267,6 +356,17 @@ static void runHistory(const std::string& line, int fd) {
     XMLCh ls[] = { 'L', 'S', 0 };
     DOMImplementation* impl = DOMImplementationRegistry::getDOMImplementation(ls);
     XMLCh rootName[] = { 'a', 0 };
+    if (!toks.empty() && toks[0] == "IDMAP") {
+        IdHist ih;
+        ih.doc = impl->createDocument(0, rootName, 0);
+        ih.els.push_back(0);
+        ih.els.push_back(ih.doc->getDocumentElement());
+        ih.idOf[ih.doc->getDocumentElement()] = 1;
+        alarm(30);
+        for (size_t i = 1; i < toks.size(); i++) emit((i > 1 ? " " : "") + doIdOp(ih, toks[i]), fd);
+        alarm(0);
+        return;
+    }
     Hist h;
     h.doc = impl->createDocument(0, rootName, 0);
     h.reg(h.doc);
@@ -296,7 +396,7 @@ int main(int argc, char** argv) {
     if (!useFork) {
         struct sigaction sa; memset(&sa, 0, sizeof sa);
         sa.sa_handler = onSegv; sa.sa_flags = SA_NODEFER;
-        sigaction(SIGSEGV, &sa, 0); sigaction(SIGBUS, &sa, 0); sigaction(SIGFPE, &sa, 0);
+        sigaction(SIGSEGV, &sa, 0); sigaction(SIGBUS, &sa, 0); sigaction(SIGFPE, &sa, 0); sigaction(SIGALRM, &sa, 0);
         while (std::getline(std::cin, line)) {
             gOut.clear();
             if (sigsetjmp(gJmp, 1) == 0) runHistory(line, -1);
